@@ -51,6 +51,8 @@ def fresh_process():
     """What a new interpreter would start with: empty in-memory tables."""
     import joblib.memory as jm
     jm._FUNCTION_HASHES.clear()
+    if hasattr(jm, "_FUNCTION_ID_HASHES"):
+        jm._FUNCTION_ID_HASHES.clear()
     del WARNINGS[:]
 
 
